@@ -411,6 +411,10 @@ func (w *AwaitCsvAction) Execute(services *SwapServices, swap *SwapData) EventTy
 		return swap.HandleError(err)
 	}
 
+	// The claim invoice stays payable while we wait for the csv: keep
+	// listening for its payment (also after a restart in this state).
+	services.lightning.AddPaymentNotifier(swap.GetId().String(), swap.OpeningTxBroadcasted.Payreq, INVOICE_CLAIM)
+
 	policy, err := swap.getTimelockPolicy()
 	if err != nil {
 		return swap.HandleError(err)
